@@ -1,0 +1,107 @@
+//! Verification hooks (cargo feature `verif-hooks`, off by default).
+//!
+//! Two facilities, both inert unless their environment variable is set:
+//!
+//! * `pause(point)` sleeps the calling thread at a named point according to
+//!   `BRUSH_VERIF_PAUSE="point[#nth]=millis,..."`; used to enumerate schedules.
+//! * `event(kind, fields)` appends one JSON line to the file named by `BRUSH_VERIF_LOG`.
+
+use std::collections::HashMap;
+use std::io::Write;
+use std::sync::atomic::{AtomicU64, Ordering};
+use std::sync::{Mutex, OnceLock};
+
+struct PauseRule {
+    point: String,
+    nth: Option<u64>,
+    millis: u64,
+}
+
+struct Config {
+    pauses: Vec<PauseRule>,
+    log: Option<Mutex<std::fs::File>>,
+}
+
+static CONFIG: OnceLock<Config> = OnceLock::new();
+static SEQ: AtomicU64 = AtomicU64::new(0);
+static HITS: OnceLock<Mutex<HashMap<String, u64>>> = OnceLock::new();
+
+fn config() -> &'static Config {
+    CONFIG.get_or_init(|| {
+        let mut pauses = vec![];
+        if let Ok(spec) = std::env::var("BRUSH_VERIF_PAUSE") {
+            for item in spec.split(',') {
+                let Some((lhs, rhs)) = item.split_once('=') else {
+                    continue;
+                };
+                let Ok(millis) = rhs.trim().parse::<u64>() else {
+                    continue;
+                };
+                let (point, nth) = match lhs.split_once('#') {
+                    Some((p, n)) => (p, n.trim().parse::<u64>().ok()),
+                    None => (lhs, None),
+                };
+                pauses.push(PauseRule {
+                    point: point.trim().to_owned(),
+                    nth,
+                    millis,
+                });
+            }
+        }
+
+        let log = std::env::var_os("BRUSH_VERIF_LOG").and_then(|path| {
+            std::fs::OpenOptions::new()
+                .create(true)
+                .append(true)
+                .open(path)
+                .ok()
+                .map(Mutex::new)
+        });
+
+        Config { pauses, log }
+    })
+}
+
+/// Sleeps at the named point if a pause rule selects it (and its n-th hit, 1-based).
+pub fn pause(point: &str) {
+    let cfg = config();
+    if cfg.pauses.is_empty() && cfg.log.is_none() {
+        return;
+    }
+
+    let hit = {
+        let hits = HITS.get_or_init(|| Mutex::new(HashMap::new()));
+        let Ok(mut hits) = hits.lock() else {
+            return;
+        };
+        let counter = hits.entry(point.to_owned()).or_insert(0);
+        *counter += 1;
+        *counter
+    };
+
+    event("pause.point", &format!("\"point\":\"{point}\",\"hit\":{hit}"));
+
+    for rule in &cfg.pauses {
+        if rule.point == point && rule.nth.is_none_or(|n| n == hit) {
+            std::thread::sleep(std::time::Duration::from_millis(rule.millis));
+        }
+    }
+}
+
+/// Appends an event record; `fields` is a comma-separated JSON member list (may be empty).
+pub fn event(kind: &str, fields: &str) {
+    let Some(log) = &config().log else {
+        return;
+    };
+
+    let Ok(mut file) = log.lock() else {
+        return;
+    };
+
+    // Sequence numbers are taken under the log lock so that file order equals sequence order.
+    let seq = SEQ.fetch_add(1, Ordering::SeqCst);
+    let tid = format!("{:?}", std::thread::current().id());
+    let sep = if fields.is_empty() { "" } else { "," };
+    let line = format!("{{\"seq\":{seq},\"tid\":\"{tid}\",\"kind\":\"{kind}\"{sep}{fields}}}\n");
+    let _ = file.write_all(line.as_bytes());
+}
